@@ -117,3 +117,39 @@ try_from_value!(c10_interface_value4, InterfaceName<'_>, m::interface_name, 4, 7
 try_from_value!(c10_error_value4, ErrorName<'_>, m::error_name, 4, 7);
 try_from_value!(c10_member_value4, MemberName<'_>, m::member_name, 4, 7);
 try_from_value!(c10_property_value4, PropertyName<'_>, m::property_name, 4, 7);
+
+/// 255-byte limit: concrete content of the right shape, symbolic choice between 255 and 256 bytes.
+macro_rules! length_limit {
+    ($h:ident, $ty:ty, $model:path, $first:expr, $second:expr) => {
+        #[kani::proof]
+        #[kani::unwind(262)]
+        #[kani::stub(alloc::fmt::format, no_format)]
+        fn $h() {
+            let mut buf = [b'a'; 258];
+            buf[0] = $first;
+            buf[1] = $second;
+            if $first == b':' {
+                buf[2] = b'.';
+            }
+            let over: bool = kani::any();
+            let len: usize = if over { 256 } else { 255 };
+            let bytes = &buf[..len];
+            let s = unsafe { core::str::from_utf8_unchecked(bytes) };
+            let r = <$ty>::try_from(s);
+            let real = r.is_ok();
+            core::mem::forget(r);
+            kani::cover!(real, "accepted");
+            kani::cover!(!real, "rejected");
+            // the content is valid for the type, so acceptance depends on the length only
+            assert!(real == (len <= 255), "the 255-byte limit is not enforced exactly");
+        }
+    };
+}
+length_limit!(c10_unique_len255, UniqueName<'_>, m::unique_name, b':', b'a');
+length_limit!(c10_wellknown_len255, WellKnownName<'_>, m::well_known_name, b'a', b'.');
+length_limit!(c10_busname_wk_len255, BusName<'_>, m::bus_name, b'a', b'.');
+length_limit!(c10_busname_uniq_len255, BusName<'_>, m::bus_name, b':', b'a');
+length_limit!(c10_interface_len255, InterfaceName<'_>, m::interface_name, b'a', b'.');
+length_limit!(c10_error_len255, ErrorName<'_>, m::error_name, b'a', b'.');
+length_limit!(c10_member_len255, MemberName<'_>, m::member_name, b'a', b'a');
+length_limit!(c10_property_len255, PropertyName<'_>, m::property_name, b'a', b'a');
